@@ -236,9 +236,25 @@ def cell_by_path(a5, face, seg, digits):
     return c
 
 
-def random_cell(rnd, a5, r=None, rmin=0, rmax=29):
+def alias_cell(rnd, a5, r):
+    """a resolution-r id (r >= 8) that repeats the bit pattern of a coarse cell's id in its upper bits: the coarse id (its
+    resolution marker included, which the finer id reads as a Hilbert digit) followed by zero digits, optionally a few random
+    low digits, and the marker of resolution r (bit 59 - 2r of the documented id layout). These are the ids that a coarse id
+    can be confused with when only part of the 64 bits is looked at."""
+    q = random_cell(rnd, a5, rnd.randint(0, min(5, r - 3)), alias=False)
+    m = 59 - 2 * r
+    y = q | (1 << m)
+    if rnd.random() < 0.5:
+        t = rnd.randint(1, min(8, r - 7))
+        y |= rnd.getrandbits(2 * t) << (m + 1)
+    return y
+
+
+def random_cell(rnd, a5, r=None, rmin=0, rmax=29, alias=True):
     if r is None:
         r = rnd.randint(rmin, rmax)
+    if alias and r >= 8 and rnd.random() < 0.05:
+        return alias_cell(rnd, a5, r)
     face = rnd.randrange(12)
     if r == 0:
         return cell_by_path(a5, face, None, [])
